@@ -1,0 +1,68 @@
+package tax_test
+
+import (
+	"encoding/json"
+	"testing"
+
+	"github.com/invopop/gobl/num"
+	"github.com/invopop/gobl/tax"
+	"github.com/stretchr/testify/assert"
+	"github.com/stretchr/testify/require"
+)
+
+func TestTotalValidateFields(t *testing.T) {
+	sample := func() *tax.Total {
+		return &tax.Total{
+			Categories: []*tax.CategoryTotal{
+				{
+					Code: tax.CategoryVAT,
+					Rates: []*tax.RateTotal{
+						{
+							Key:     tax.RateStandard,
+							Country: "ES",
+							Base:    num.MakeAmount(10000, 2),
+							Percent: num.NewPercentage(21, 2),
+							Amount:  num.MakeAmount(2100, 2),
+						},
+					},
+					Amount: num.MakeAmount(2100, 2),
+				},
+			},
+			Sum: num.MakeAmount(2100, 2),
+		}
+	}
+	assert.NoError(t, sample().Validate())
+
+	t.Run("missing category code", func(t *testing.T) {
+		tt := sample()
+		tt.Categories[0].Code = ""
+		assert.ErrorContains(t, tt.Validate(), "categories: (0: (code: cannot be blank.).)")
+	})
+	t.Run("malformed category code", func(t *testing.T) {
+		tt := sample()
+		tt.Categories[0].Code = "VAT "
+		assert.ErrorContains(t, tt.Validate(), "categories: (0: (code: must be in a valid format.).)")
+	})
+	t.Run("missing rates", func(t *testing.T) {
+		tt := sample()
+		tt.Categories[0].Rates = nil
+		assert.ErrorContains(t, tt.Validate(), "categories: (0: (rates: cannot be blank.).)")
+		tt.Categories[0].Rates = []*tax.RateTotal{}
+		assert.ErrorContains(t, tt.Validate(), "categories: (0: (rates: cannot be blank.).)")
+	})
+	t.Run("missing rates in JSON", func(t *testing.T) {
+		tt := new(tax.Total)
+		require.NoError(t, json.Unmarshal([]byte(`{"categories":[{"code":"VAT","amount":"21.00"}],"sum":"21.00"}`), tt))
+		assert.ErrorContains(t, tt.Validate(), "categories: (0: (rates: cannot be blank.).)")
+	})
+	t.Run("malformed rate key", func(t *testing.T) {
+		tt := sample()
+		tt.Categories[0].Rates[0].Key = "Standard Rate"
+		assert.ErrorContains(t, tt.Validate(), "categories: (0: (rates: (0: (key: must be in a valid format.).).).)")
+	})
+	t.Run("unknown rate country", func(t *testing.T) {
+		tt := sample()
+		tt.Categories[0].Rates[0].Country = "ZZ"
+		assert.ErrorContains(t, tt.Validate(), "categories: (0: (rates: (0: (country: must be a valid tax country code.).).).)")
+	})
+}
